@@ -120,6 +120,8 @@ structure Walker (Node : Type) where
   prevNode : Option Node
   reconstruction : Bool
   inhibitElision : Bool
+  /-- NOT in the Rust: `true` selects the behaviour of `set_node` before the repair of finding F20 -/
+  preFix : Bool := false
 
 /-- `Output` -/
 inductive Output (Node : Type) where
@@ -213,7 +215,9 @@ def diffSetChanged (d : PageDiff) (i : Nat) : WR PageDiff :=
   | .err _ => .panic "set_changed"
   | .panic s => .panic s
 
-/-- `PageWalker::set_node` -/
+/-- `PageWalker::set_node`.  Since the repair of finding F20 the slot is ALWAYS recorded in the diff and the clear bit is
+raised on top of it; with `w.preFix` the function behaves as before the repair (`set_cleared()` INSTEAD of
+`set_changed(node_index)`) — kept for the kernel-checked counterexample `T16_walker_diff_exact_prefix_counterexample`. -/
 def Walker.setNode (w : Walker Node) (node : Node) : WR (Walker Node) :=
   let idx := w.position.nodeIndex
   match w.siblingNode H with
@@ -227,13 +231,15 @@ def Walker.setNode (w : Walker Node) (node : Node) : WR (Walker Node) :=
       | .panic s => .panic s
       | .err e => .err e
       | .ok pg =>
-        if w.position.isFirstLayerInPage ∧ node = H.term ∧ sib = H.term then
+        let clear : Bool := w.position.isFirstLayerInPage && decide (node = H.term) && decide (sib = H.term)
+        if w.preFix ∧ clear then
           .ok { w with stack := { top with page := pg, diff := top.diff.setCleared } :: rest }
         else
           match diffSetChanged top.diff idx with
           | .panic s => .panic s
           | .err e => .err e
-          | .ok d => .ok { w with stack := { top with page := pg, diff := d } :: rest }
+          | .ok d =>
+            .ok { w with stack := { top with page := pg, diff := if clear then d.setCleared else d } :: rest }
 
 /-- `PageWalker::set_sibling` -/
 def Walker.setSibling (w : Walker Node) (node : Node) : WR (Walker Node) :=
